@@ -507,6 +507,23 @@ static void gen_zoo(const char *prop, int tier)
 
 int gen_ext(struct plan *p, const char *scenario, const char *prop, int tier);
 
+/* in some plans one timer registration becomes a parked timer (an expiry centuries away): drawn after
+ * everything else */
+static void park_timers(int pct)
+{
+	int i, cand[64], n = 0;
+	if (!P(pct))
+		return;
+	for (i = 0; i < G->nops && n < 64; i++)
+		if (G->ops[i].op == OP_REG && G->ops[i].d >= 0 && G->ops[i].d < G->nobj && G->obj[G->ops[i].d].kind == K_TIMER)
+			cand[n++] = i;
+	if (n) {
+		i = cand[R(n)];
+		G->ops[i].a = 4;
+		G->ops[i].b = R(3000);
+	}
+}
+
 int gen_plan(struct plan *p, const char *scenario, const char *prop, uint64_t seed, int tier)
 {
 	plan_init(p);
@@ -518,6 +535,7 @@ int gen_plan(struct plan *p, const char *scenario, const char *prop, uint64_t se
 	p->tier = tier;
 	if (!strcmp(scenario, "zoo")) {
 		gen_zoo(prop, tier);
+		park_timers(!strcmp(prop, "C04") || !strcmp(prop, "C05") ? 14 : 4);
 		return 0;
 	}
 	return gen_ext(p, scenario, prop, tier);
